@@ -5,6 +5,7 @@ import itertools
 import numpy as np
 from runner import Case
 from shapes import shapes, prod, fmt, fmt_lists, all_idx, rand_shape
+from props import c04_bc
 
 ID = 'C04'
 LEVEL = 'proof'
@@ -27,7 +28,7 @@ H_A = 'h_c04a'
 
 
 def harness_specs(tier):
-    return [dict(name=H_A, src='h_c04a.cpp', flavour='fast')]
+    return [dict(name=H_A, src='h_c04a.cpp', flavour='fast')] + c04_bc.harness_specs_bc(tier)
 
 
 def iota(s, base=0):
@@ -284,6 +285,8 @@ def gen_large(tier, rng):
         yield Case('concatenate shape=%s shape2=%s axis=%d' % (fmt(s), fmt(s2), ax), H_A,
                    oracle=ans(np.concatenate([a, iota(s2, 1000)], axis=ax)), tags=['concatenate'] + tg)
 
+KNOWN_PREDICATES.update(c04_bc.KNOWN_PREDICATES_BC)
+
 
 def gen(tier, rng):
     yield from gen_large(tier, rng)
@@ -293,3 +296,4 @@ def gen(tier, rng):
     yield from gen_pad(tier, rng)
     yield from gen_take(tier, rng)
     yield from gen_concatenate(tier, rng)
+    yield from c04_bc.gen_bc(tier, rng)
